@@ -65,7 +65,10 @@ func runCLI(c c16Case) cliResult {
 	target := filepath.Join(base, ops.JailTarget)
 	docPath := filepath.Join(base, "work", "doc.md")
 	os.WriteFile(docPath, c.Doc, 0o644)
-	args := []string{c.Sub}
+	var args []string
+	if c.Sub != "" {
+		args = append(args, c.Sub)
+	}
 	args = append(args, c.Args...)
 	switch c.Input {
 	case "file":
@@ -149,9 +152,15 @@ func c16Check(c c16Case) string {
 	if c.Usage != "" {
 		return fail("usage error (" + c.Usage + ")")
 	}
-	if c.Sub == "template" || c.Sub == "version" {
+	if c.Sub == "" {
+		if cli.exit != 0 {
+			return fmt.Sprintf("%splain 'gtree' (help) exits with status %d", head, cli.exit)
+		}
+		return ""
+	}
+	if c.Sub == "template" || c.Sub == "t" || c.Sub == "tmpl" || c.Sub == "version" || c.Sub == "v" {
 		if c.Stdout == "devfull" {
-			if c.Sub == "template" {
+			if c.Sub != "version" && c.Sub != "v" {
 				return fail("stdout does not accept the output")
 			}
 			return ""
@@ -254,7 +263,7 @@ func firstLine(s string) string {
 func c16Gen() *rapid.Generator[c16Case] {
 	return rapid.Custom(func(t *rapid.T) c16Case {
 		c := c16Case{Stdout: "pipe", Input: rapid.SampledFrom([]string{"stdin", "stdin", "file", "file", "dash", "missing", "dir"}).Draw(t, "input")}
-		c.Sub = rapid.SampledFrom([]string{"output", "output", "o", "mkdir", "mkdir", "m", "verify", "vf", "template", "version", "frobnicate"}).Draw(t, "sub")
+		c.Sub = rapid.SampledFrom([]string{"output", "output", "o", "out", "mkdir", "mkdir", "m", "verify", "verify", "vf", "template", "t", "tmpl", "version", "v", "frobnicate", "outputs", ""}).Draw(t, "sub")
 		names := sampled(validElemPool())
 		hostile := rapid.IntRange(0, 5).Draw(t, "hostile") == 0
 		if hostile {
@@ -277,7 +286,7 @@ func c16Gen() *rapid.Generator[c16Case] {
 			c.Doc = []byte(rapid.SampledFrom([]string{"", "\n", "  \n"}).Draw(t, "blank"))
 		}
 		switch c.Sub {
-		case "output", "o":
+		case "output", "o", "out":
 			switch rapid.IntRange(0, 5).Draw(t, "format") {
 			case 0:
 				c.Format = "json"
@@ -343,19 +352,34 @@ func c16Gen() *rapid.Generator[c16Case] {
 					c.Pre = append(c.Pre, ops.FSEntry{Path: f[0].Name + "/~x", Kind: "d"})
 				}
 			}
-		case "template":
+			if rapid.IntRange(0, 2).Draw(t, "td") == 0 {
+				c.Target = rapid.SampledFrom([]string{"sub", "./sub/deeper", "no-such-dir"}).Draw(t, "target")
+				c.Args = append(c.Args, "--target-dir", c.Target)
+				if c.Target != "no-such-dir" {
+					for i := range c.Pre {
+						c.Pre[i].Path = strings.TrimPrefix(c.Target, "./") + "/" + c.Pre[i].Path
+					}
+				}
+			}
+		case "template", "t", "tmpl":
 			c.Stdout = rapid.SampledFrom([]string{"pipe", "pipe", "devfull", "closed"}).Draw(t, "stdout")
 			if rapid.IntRange(0, 3).Draw(t, "desc") == 0 {
 				c.Args = append(c.Args, "--description")
 			}
 			c.Input = "stdin"
-		case "version":
+		case "version", "v":
 			c.Input = "stdin"
+		case "":
+			c.Input = "stdin" // no subcommand: the help text, exit 0
 		default:
 			c.Usage = "unknown command"
 			c.Input = "stdin"
 		}
-		switch rapid.IntRange(0, 9).Draw(t, "junk") {
+		junk := rapid.IntRange(0, 9).Draw(t, "junk")
+		if c.Sub == "" {
+			junk = 9
+		}
+		switch junk {
 		case 0:
 			c.Args = append(c.Args, "stray-argument")
 			c.Usage = "stray positional argument"
